@@ -231,7 +231,7 @@ CHECKS = {
             "for the classification clause 'the compiled program reading the new text file renders the edited template' is decided by token-stream equality of the last compiled Go and the new Go with only WriteString literals and error positions masked (by construction of development mode that program is then the new one)",
             "a version that templ generate rejects ends an edit sequence",
         ],
-        "quick": {"timeout": 900, "runs": [{"run": "^TestPropDevMode$", "rapid_checks": 6}, {"run": "^TestPropEdits$", "rapid_checks": 1200}]},
-        "thorough": {"timeout": 3400, "shards": 12, "runs": [{"run": "^TestPropDevMode$", "rapid_checks": 30}, {"run": "^TestPropEdits$", "rapid_checks": 20000}]},
+        "quick": {"timeout": 900, "runs": [{"run": "^TestPropDevMode$", "rapid_checks": 6}, {"run": "^TestPropEdits$", "rapid_checks": 1200}, {"run": "^TestPropSessions$", "rapid_checks": 3}]},
+        "thorough": {"timeout": 3400, "shards": 12, "runs": [{"run": "^TestPropDevMode$", "rapid_checks": 30}, {"run": "^TestPropEdits$", "rapid_checks": 20000}, {"run": "^TestPropSessions$", "rapid_checks": 6}]},
     },
 }
